@@ -133,6 +133,69 @@ theorem canonical_total (p : Property) (hs : ScopeOK p.scope) (hq : PatOK p.patt
     rw [(sanityCheck_ok_iff s' q' hso hqo).2 hws] at herr
     cases herr
 
+/-! ## exactly when `canonical_form` fails -/
+
+theorem canonicalScopes_scopeOK {s s' : Scope} (hs : ScopeOK s) (hs' : s' ∈ canonicalScopes s) : ScopeOK s' := by
+  unfold canonicalScopes at hs'
+  split at hs'
+  · rename_i a hk ha
+    obtain ⟨e, he, rfl⟩ := List.mem_map.1 hs'
+    exact ⟨fun a' ha' => by cases ha'; exact (hs.1 a ha).of_alternative he, hs.2⟩
+  · rename_i a hk ha
+    obtain ⟨e, he, rfl⟩ := List.mem_map.1 hs'
+    exact ⟨fun a' ha' => by cases ha'; exact (hs.1 a ha).of_alternative he, hs.2⟩
+  · simp only [List.mem_singleton] at hs'; subst hs'; exact hs
+
+theorem canonicalPatterns_patOK {q q' : Pattern} (hq : PatOK q) (hq' : q' ∈ canonicalPatterns q) : PatOK q' := by
+  unfold canonicalPatterns at hq'
+  split at hq'
+  · obtain ⟨e, he, rfl⟩ := List.mem_map.1 hq'
+    exact ⟨hq.1.of_alternative he, hq.2⟩
+  · split at hq'
+    · rename_i t hk ht
+      obtain ⟨e, he, rfl⟩ := List.mem_map.1 hq'
+      exact ⟨hq.1, fun t' ht' => by cases ht'; exact (hq.2 t ht).of_alternative he⟩
+    · simp only [List.mem_singleton] at hq'; subst hq'; exact hq
+
+theorem mapM_ok_all {α β : Type} (f : α → M β) : ∀ (l : List α) (r : List β), l.mapM f = .ok r → ∀ a ∈ l, ∃ b, f a = .ok b
+  | [], _, _, a, ha => by cases ha
+  | x :: l, r, h, a, ha => by
+      rw [List.mapM_cons] at h
+      obtain ⟨b, hb, h⟩ := bind_ok h
+      obtain ⟨bs, hbs, _⟩ := bind_ok h
+      rcases List.mem_cons.1 ha with rfl | ha
+      · exact ⟨b, hb⟩
+      · exact mapM_ok_all f l bs hbs a ha
+
+/-- **exactly when `canonical_form` succeeds**: on a property whose events pass their constructors, either nothing is split (the
+    property is returned as it is), or every copy — one alternative in each split position — is well-scoped by itself.  So the
+    failure recorded as known finding `C11-split-unbinds-alias` (a copy that lost the alias a later event references, or …) is the
+    *only* failure there is, and `WellScoped` of the copies is its exact description -/
+theorem canonical_ok_iff (p : Property) (hs : ScopeOK p.scope) (hq : PatOK p.pattern) :
+    (∃ qs, canonical p = .ok qs) ↔
+      ((canonicalScopes p.scope).length = 1 ∧ (canonicalPatterns p.pattern).length = 1) ∨
+      ∀ s' ∈ canonicalScopes p.scope, ∀ q' ∈ canonicalPatterns p.pattern, WellScoped s' q' := by
+  constructor
+  · rintro ⟨qs, h⟩
+    by_cases hone : (canonicalScopes p.scope).length = 1 ∧ (canonicalPatterns p.pattern).length = 1
+    · exact Or.inl hone
+    · refine Or.inr (fun s' hs' q' hq' => ?_)
+      unfold canonical at h
+      simp only [hone, if_false] at h
+      obtain ⟨b, hb⟩ := mapM_ok_all _ _ _ h (s', q') (List.mem_flatMap.2 ⟨s', hs', List.mem_map.2 ⟨q', hq', rfl⟩⟩)
+      unfold butProp at hb
+      obtain ⟨u, hu, _⟩ := bind_ok hb
+      cases u
+      exact (sanityCheck_ok_iff s' q' (canonicalScopes_scopeOK hs hs') (canonicalPatterns_patOK hq hq')).1 hu
+  · rintro (hone | hall)
+    · exact ⟨[p], by unfold canonical; simp only [hone, and_self, if_true]⟩
+    · cases h : canonical p with
+      | ok qs => exact ⟨qs, rfl⟩
+      | error e =>
+        obtain ⟨s', hs', q', hq', herr⟩ := canonical_error_is_sanity_of_copy p e h
+        rw [(sanityCheck_ok_iff s' q' (canonicalScopes_scopeOK hs hs') (canonicalPatterns_patOK hq hq')).2 (hall s' hs' q' hq')] at herr
+        cases herr
+
 /-- the hypotheses are met by a property that is really split (2 scopes × 3 patterns) -/
 example : ScopeOK exC11.scope ∧ PatOK exC11.pattern ∧ WellScoped exC11.scope exC11.pattern ∧ SplitsBindNothing exC11 ∧
     ∃ qs, canonical exC11 = .ok qs ∧ qs.length = 6 := by
